@@ -187,13 +187,14 @@ def jfield : List (List Char × JVal) → List Char → Option JVal
   | (k, v) :: rest, f => if k = f then some v else jfield rest f
 
 /-- `true` = the walk completes, `false` = nil-pointer dereference; `hops` = the consecutive joined relations on the
-    preload path, starting at `v` -/
-def entryWalk : JVal → List (List Char) → Bool
+    preload path, starting at `v`; `nilSafe` = the single-record branch of preloadEntryPoint tests the joined
+    relation's field for nil before descending (regenerated fact `Gen.preloadSingleNilCheck`) -/
+def entryWalk (nilSafe : Bool) : JVal → List (List Char) → Bool
   | _, [] => true
-  | .nilp, _ :: _ => false
+  | .nilp, _ :: _ => nilSafe
   | .obj fs, f :: rest =>
     match jfield fs f with
-    | some v => entryWalk v rest
+    | some v => entryWalk nilSafe v rest
     | none => true
 
 /-- value reached after following `hops` -/
